@@ -80,6 +80,12 @@ def w_blocks(acc, L, first):
         acc.run("text", o_text, "".join(parts), True)
 
 
+def w_large(acc, n):
+    acc.run("deriv", o_deriv, bibgen.large_document(n), True)
+    acc.run("deriv", o_deriv, bibgen.large_document(min(n, 600), fields_per_entry=40, string_every=0), True)
+    acc.classes["large-document"] += 1
+
+
 def w_random(acc, n, seed):
     harness.run_hyp(acc, "deriv", o_deriv, bibgen.strategies(), n, seed)
 
@@ -95,6 +101,7 @@ def run(chk):
     for k in range(0, bl + 1):
         for first in (range(len(BLOCK_ALPHABET)) if k else [None]):
             tasks.append(("w_blocks", (k, first)))
+    tasks += [("w_large", (n,)) for n in ((130, 300, 1100) if quick else (130, 300, 1100, 4200))]
     n_rand = 60000 if quick else 600000
     shards = 16 if quick else 64
     for s in range(shards):
